@@ -98,6 +98,7 @@ func runC11(c *Ctx) {
 	ruleP4(c)
 	ruleP4Extract(c)
 	ruleP5(c)
+	ruleL1(c, "P7", 20)
 	// ---- P6 ---------------------------------------------------------------------
 	for _, fn := range c.moduleFuncs() {
 		for _, s := range recoverLostSites(c, fn) {
